@@ -5,6 +5,8 @@ V = os.path.dirname(os.path.dirname(os.path.abspath(__file__)))
 props = {}
 for fn in sorted(glob.glob(os.path.join(V, "props", "C*.json"))):
     p = json.load(open(fn))
+    if not p.get("ready"):
+        continue  # not reviewed / not validated on the unchanged tree yet: not claimed
     props[p["id"]] = p
 allids = [json.loads(l)["id"] for l in open(os.path.join(V, "properties.jsonl"))]
 na_reasons = {}
